@@ -268,10 +268,18 @@ def judge(src: Src, ins: list, outs: list, exp: list, den: dict, target: str, re
             while root.__cause__ is not None:
                 root = root.__cause__
             if not (isinstance(exc, ValueError) and "not properly bounded" in str(exc)):
-                div.append(("raise-not-from-frontier-check", f"{type(exc).__name__}<-{type(root).__name__}"))
+                # documented: ValueError from the frontier check; anything else is still "raises"
+                front = set(exp[3]) if len(exp) > 3 else set()
+                why = "uncovered-output" if front & set(outs) else "uncovered-capture" if front else "?"
+                div.append((f"raise-not-from-frontier-check:{type(exc).__name__}<-{type(root).__name__}:{why}",
+                            "the frontier check let the region pass, the cloner rejected it"))
         return vio, div
     if exp_raise:
-        vio.append(("no-raise-on-uncovered-value", f"returned nodes {[n.op_type for n in res]}"))
+        front = exp[3] if len(exp) > 3 else "?"
+        vio.append(("no-raise-on-uncovered-value", f"uncovered {front}; returned nodes {[n.op_type for n in res]}"))
+        sh = shared_objects(src, res)
+        if sh:
+            vio.append(("shares-" + sh[0].split(":")[0], ",".join(sh)))
         return vio, div
     got_nodes = [_node_num(n) for n in res]
     if got_nodes != exp_nodes:
@@ -424,7 +432,9 @@ def process_record(rec: dict, policy: str, seed: int, stride: int, out: dict) ->
     for m, src in srcs.items():
         if not src.unchanged():
             sig = "C18:extract:source-mutated:" + label
-            out["findings"].setdefault(sig, dict(kind="source", instance=inst_key, mode=m, message=sig))
+            out["findings"].setdefault(sig, dict(kind="source", instance=inst_key, mode=m,
+                                                 cuts=[[c[0], c[1]] for c in rec["cuts"]],
+                                                 message=f"{sig}: uses()/node lists of the source changed after extracting from it"))
 
 
 def _new_out() -> dict:
